@@ -92,16 +92,16 @@ ASSUMPTIONS = [
     "permissions (os.access false for an existing file, LenaEnvironmentError of drop_cache) and Python 2 branches are "
     "not modelled",
 ]
-RULE = ("quick and thorough: exhaustive families — A: one cache in 4 pipeline shapes x source length 0..3 (thorough 0..6) "
+RULE = ("quick and thorough: exhaustive families — A: one cache in 4 pipeline shapes x source length 0..4 (thorough 0..6) "
         "x every crash point of the first run (consumer stops after k=0..n, source raises at k=0..n, each map element "
         "raises at k=0..n-1, complete) x generators closed or leaked x second run complete or interrupted+leaked x "
         "plain or hoisted x late finalisation or none, then a complete third run; B: two caches in 4 shapes x every "
-        "crash point (source length 2; thorough 2..4) x drop / recompute of either cache; C: all 1331 histories of 3 operations (thorough: all 14641 of 4) over an alphabet of 11 "
+        "crash point (source length 2..3; thorough 2..4) x drop / recompute of either cache; C: all 1331 histories of 3 operations (thorough: all 14641 of 4) over an alphabet of 11 "
         "(complete, stop, stop+leak, source raises, downstream element raises + leak, upstream element raises, recompute "
         "of either cache, drop of either cache, finalize) on M C0 M C1 M followed by a complete run; D: the 7 ways of "
         "calling (Source, Sequence.run, Cache.alter_sequence of a Sequence / of a Source, lena.core.alter_sequence, bare "
         "element through either) x every filling state x every nesting of a sub-Sequence. Value kinds (ints, pairs with "
-        "context, mixed, falsy/None) rotate over the cases. Plus 2500 (thorough 250000) seeded random histories: up to 6 "
+        "context, mixed, falsy/None) rotate over the cases. Plus 8000 (thorough 250000) seeded random histories: up to 6 "
         "operations, up to 3 caches and 3 map elements per pipeline, source length 0..6, pickle protocols 0-5. "
         "Non-trivial: at least one run of the history yields a value.")
 
@@ -698,17 +698,17 @@ def gen_cases(ctx):
     rng = ctx.rng
     quick = ctx.tier == "quick"
     cases = []
-    cases.extend(_family_a(range(0, 4) if quick else range(0, 7)))
+    cases.extend(_family_a(range(0, 5) if quick else range(0, 7)))
     cases.extend(_family_b(2))
+    cases.extend(_family_b(3))
     if not quick:
-        cases.extend(_family_b(3))
         cases.extend(_family_b(4))
     cases.extend(_family_c(3 if quick else 4))
     cases.extend(_family_d())
     for i, c in enumerate(cases):
         c["vk"] = _VKS[i % 4]
     ctx.exhaustive = False     # the enumerated families are complete; the random histories are sampled
-    for _ in range(2500 if quick else 250000):
+    for _ in range(8000 if quick else 250000):
         c = _random_case(rng)
         c["vk"] = rng.choice(_VKS)
         cases.append(c)
